@@ -83,7 +83,7 @@ fn base(method: &str, prob: Problem, x0: f64, xend: f64) -> Case {
         id: 0, api: "solve_ivp".into(), method: method.into(), problem: prob, x0, xend, y0,
         rtol: vec![1e-3], atol: vec![1e-6], tol_vec: false, dir_code: 0, first_step: None, max_step: None, max_steps: None, min_step: None, t_eval: None, dense: false,
         events: vec![], jac: "fd".into(), jac_storage: "full".into(), mass_storage: "identity".into(), mass: "none".into(),
-        script: vec![], tags: vec![], budget: None, low_nodense: false, map: "id".into(),
+        script: vec![], tags: vec![], budget: None, low_nodense: false, probe_restart: false, map: "id".into(),
     }
 }
 
@@ -531,6 +531,30 @@ fn fam_lowlevel(o: &mut Out, quick: bool, rng: &mut Rng) {
                 o.pair("C19", "equal_cb", &dr, &nd, "dense_output(false) does not change the accepted-step sequence");
                 o.pair("C12", "equal_cb", &dr, &nd, "building dense coefficients or not does not change the integration");
             }
+            // restart probes: the interpolant handed out for a step equals the one a fresh solver builds for that step
+            if matches!(*m, "RK4" | "RK23" | "DOPRI5" | "DOP853") {
+                for (p, tol) in [(Problem::new("sho", 0.0), 1e-6), (Problem::new("vdp", 2.0), 1e-4)] {
+                    let mut c = base(m, p, *x0, *xend);
+                    c.api = "low".into();
+                    c.rtol = vec![tol];
+                    c.atol = vec![tol * 1e-3];
+                    c.probe_restart = true;
+                    if *m == "RK4" { c.first_step = Some((xend - x0) / 23.0); }
+                    c.tags = vec!["restart_probe".into()];
+                    o.run(c);
+                }
+                // a long run: more than 1000 accepted steps (periodic housekeeping of the steppers is reached)
+                if si == 0 && *m != "RK4" {
+                    let mut c = base(m, Problem::new("sho", 0.0), 0.0, if quick { 52.0 } else { 110.0 });
+                    c.api = "low".into();
+                    c.rtol = vec![1e-6];
+                    c.atol = vec![1e-9];
+                    c.max_step = Some(0.05);
+                    c.probe_restart = true;
+                    c.tags = vec!["restart_probe_long".into()];
+                    o.run(c);
+                }
+            }
             // doubling at the initial callback
             for p in [Problem::new("lin2", 0.0), Problem::new("decay", 1.0)] {
                 let mut c = base(m, p, *x0, *xend);
@@ -603,6 +627,15 @@ fn fam_observer(o: &mut Out, quick: bool, rng: &mut Rng) {
             v.tags = vec![format!("observer_mask{}", mask)];
             let b = o.run(v);
             o.pair("C12", "observer", &a, &b, "t_eval/dense/events change only what is reported");
+        }
+        // requested times that end well before xend: the integration still runs to xend, unperturbed
+        for dense in [false, true] {
+            let mut v = c.clone();
+            v.t_eval = Some(linspace(x0, x0 + 0.55 * (xend - x0), 4));
+            v.dense = dense;
+            v.tags = vec![if dense { "observer_teval_inside+dense".into() } else { "observer_teval_inside".into() }];
+            let b = o.run(v);
+            o.pair("C12", "observer", &a, &b, "t_eval ending inside the span changes only what is reported");
         }
         let mut v = c.clone();
         v.tags = vec!["repeat".into()];
@@ -1002,6 +1035,65 @@ fn fam_storage(o: &mut Out, quick: bool, rng: &mut Rng) {
     }
 }
 
+/// C15: non-identity mass matrices held in different storages; index-1 DAEs (singular diagonal mass)
+fn fam_storage_mass(o: &mut Out, quick: bool) {
+    let probs = vec![Problem::new("lin3", 0.0), Problem::new("cascade4", 2.0), Problem::new("vdp", 2.0), Problem::new("chain4", 3.0)];
+    for (pi, p) in probs.iter().enumerate() {
+        if quick && pi >= 3 { continue; }
+        let n = p.dim();
+        for (mass, stores) in [("lowbi", vec!["full".to_string(), "banded:1,0".into(), "banded:1,1".into(), format!("banded:{},1", n)]),
+                               ("upbi", vec!["full".to_string(), "banded:0,1".into(), "banded:1,1".into(), format!("banded:0,{}", n)]),
+                               ("tri", vec!["full".to_string(), "banded:1,1".into(), "banded:2,1".into(), "banded:1,2".into()])] {
+            for (x0, xend) in [(0.0, 1.5), (1.0, 0.25)] {
+                let mut c = base("RADAU", p.clone(), x0, xend);
+                c.jac = "user".into();
+                c.rtol = vec![1e-5];
+                c.atol = vec![1e-8];
+                c.mass = mass.into();
+                c.mass_storage = stores[0].clone();
+                c.tags = vec![format!("mass={}+mass_storage={}", mass, stores[0])];
+                let a = o.run(c.clone());
+                for st in &stores[1..] {
+                    let mut v = c.clone();
+                    v.mass_storage = st.clone();
+                    v.tags = vec![format!("mass={}+mass_storage={}", mass, st)];
+                    let b = o.run(v);
+                    o.pair("C15", "equal", &a, &b, "the same mass matrix in Full and Banded storage");
+                }
+                // Jacobian storage with a non-identity mass
+                let mut v = c.clone();
+                v.jac_storage = format!("banded:{},{}", n - 1, n - 1);
+                v.tags = vec![format!("mass={}+jac_banded", mass)];
+                let b = o.run(v);
+                o.pair("C15", "equal", &a, &b, "Jacobian storage Full vs Banded with a non-identity mass");
+            }
+        }
+    }
+    // index-1 DAEs: the algebraic equation first / last; diagonal singular mass in Full and Banded storage
+    for (kind, mass) in [("dae3a", "diag:0,1,1"), ("dae3b", "diag:1,1,0")] {
+        for tol in [1e-4, 1e-6] {
+            for jac in ["user", "fd"] {
+                let mut c = base("RADAU", Problem::new(kind, 0.0), 0.0, 4.0);
+                c.rtol = vec![tol];
+                c.atol = vec![tol * 1e-2];
+                c.jac = jac.into();
+                c.mass = mass.into();
+                c.mass_storage = "full".into();
+                c.max_steps = Some(20000);
+                c.tags = vec![format!("dae+mass_storage=full+jac={}", jac)];
+                let a = o.run(c.clone());
+                for st in ["banded:0,0", "banded:1,1"] {
+                    let mut v = c.clone();
+                    v.mass_storage = st.into();
+                    v.tags = vec![format!("dae+mass_storage={}+jac={}", st, jac)];
+                    let b = o.run(v);
+                    o.pair("C15", "equal", &a, &b, "singular diagonal mass in Full and Banded storage");
+                }
+            }
+        }
+    }
+}
+
 // ------------------------------------------------------------------------------------------- teval
 /// C05 (recorded part): t_eval built from the accepted-step grid of a prior run of the same case.
 fn fam_teval(o: &mut Out, quick: bool, rng: &mut Rng) {
@@ -1191,7 +1283,7 @@ fn main() {
             "budget" => { fam_budget(&mut o, quick, &mut rng); fam_budget_early_rejections(&mut o, quick); }
             "terminal" => { fam_terminal(&mut o, quick, &mut rng); fam_terminal_last(&mut o, quick); fam_terminal_sweep(&mut o, quick); }
             "symmetry" => fam_symmetry(&mut o, quick, &mut rng),
-            "storage" => fam_storage(&mut o, quick, &mut rng),
+            "storage" => { fam_storage(&mut o, quick, &mut rng); fam_storage_mass(&mut o, quick); }
             "teval" => { fam_teval(&mut o, quick, &mut rng); fam_teval_zero(&mut o); }
             "events" => { fam_events(&mut o, quick, &mut rng); fam_events_small(&mut o); fam_events_codes(&mut o); }
             _ => { eprintln!("unknown family {}", fam); std::process::exit(2); }
